@@ -764,8 +764,15 @@ def n_r9_constructor_params(p: Project, rep: Report):
         names = None
         # for name in ["a", "b", ...]: value = locals()[name]
         v = fold(it, {}, p, CLIENT)
+        if v is UNK and isinstance(it, ast.Attribute) and isinstance(it.value, ast.Name) and it.value.id in ("self", "cls", ci.name):
+            # a table kept as a class attribute: self._names / OFXClient._names
+            cv = ci.lookup(it.attr)
+            if isinstance(cv, (tuple, list)):
+                v = tuple(cv)
         if isinstance(v, (tuple, list)) and all(isinstance(x, str) for x in v) and isinstance(lp.target, ast.Name):
-            uses_locals = any(isinstance(c, ast.Subscript) and isinstance(c.value, ast.Call) and text(c.value.func) == "locals" and text(c.slice) == lp.target.id for c in ast.walk(lp))
+            # locals()[name], or <alias>[name] with `alias = locals()` bound once
+            loc_aliases = {nm for nm, ds in defs.items() if len(ds) == 1 and isinstance(ds[0].value, ast.Call) and text(ds[0].value.func) == "locals"}
+            uses_locals = any(isinstance(c, ast.Subscript) and text(c.slice) == lp.target.id and ((isinstance(c.value, ast.Call) and text(c.value.func) == "locals") or (isinstance(c.value, ast.Name) and c.value.id in loc_aliases)) for c in ast.walk(lp))
             if uses_locals and all(text(c.args[1]) == lp.target.id for c in sets):
                 names = set(v)
         # for name, value in dict(a=a, ...).items()  /  {"a": a, ...}.items()
